@@ -7,6 +7,8 @@ R2 first result     : the credential that is used is `into_iter().next()` / firs
                       or last/extremum adaptor occurs in the ceremony.
 R3 exclusion        : Err(CredentialExcluded) is built exactly under (non-empty exclude list) ∧ (lookup Ok) ∧ (result not
                       empty) — read off the MIR decision tree — and no key generation or save is reachable from it.
+R5 ids matched exactly: in the shipped leaf stores everything that consumes a descriptor's id is an equality test against a
+                      stored credential id, or a keyed map lookup (an id that is merely similar must not select a credential).
 R4 store contract   : for every `impl CredentialStore` in the workspace: wrappers forward `ids` and `rp_id` unchanged to the
                       inner store; leaf stores must *use* `rp_id` in a comparison against a stored credential's rp_id.
 """
@@ -258,10 +260,38 @@ def run(chk):
                 wit = "rp_id is read but never compared with a stored credential's rp_id"
             chk.ob("R4 store contract", "R4|%s|uses-rp_id" % st, used, where(co),
                    wit + " — a credential of another RP is returned when its id is listed (or, with no ids, any stored credential)")
+            # R5: the listed ids select stored credentials by *equality* of the whole id: everything that consumes a
+            # descriptor's `id` is an equality test against a stored credential_id or a keyed map lookup
+            is_desc_id = lambda x: isinstance(x, tuple) and len(x) == 3 and x[0] == "field" and x[2] == "id"
+            strip = ("Deref::deref", "AsRef::as_ref", "Vec::as_slice", "Bytes::as_slice", "slice::as_ref", "Borrow::borrow")
+
+            def core_of(x):
+                while isinstance(x, tuple) and len(x) == 4 and x[0] == "call" and x[2] and any(names.is_(x[1], s) for s in strip):
+                    x = x[2][0]
+                return x
+            good, other = [], []
+            for b in p.nested(co.path):
+                Tb = flow.Terms(p, b)
+                for bb2, t2 in b.calls():
+                    cal = core.callee_of(t2)
+                    if any(names.is_(cal, s) for s in strip) or names.is_(cal, "Clone::clone"):
+                        continue
+                    args = [core_of(N.inline(Tb.operand(a, bb2, "t"))) for a in t2["args"]]
+                    if not any(is_desc_id(a) for a in args):
+                        continue
+                    if names.call_is(t2, "HashMap::get", "HashMap::get_mut", "HashMap::contains_key", "HashMap::get_key_value", "BTreeMap::get", "BTreeMap::contains_key"):
+                        good.append(short(cal))
+                    elif names.call_is(t2, "PartialEq::eq", "PartialEq::ne") and len(args) == 2 and any(isinstance(a, tuple) and len(a) == 3 and a[0] == "field" and a[2] == "credential_id" for a in args):
+                        good.append(short(cal))
+                    else:
+                        other.append("%s at %s" % (short(cal), where(b, bb2)))
+            chk.ob("R5 ids matched exactly", "R5|%s|ids-matched-by-equality" % st, bool(good) and not other, where(co),
+                   "descriptor ids are consumed by %s%s" % (sorted(set(good)), (" and by " + "; ".join(other) + " — not an equality of whole ids: an id that is merely similar (prefix, different length) selects the credential") if other else ""))
     chk.require("R4 store contract", "R4|impl-count", n_impl >= 2, tpath, "expected >= 2 CredentialStore impls (all-features: 6), found %d" % n_impl)
     chk.floor("R1", 4)
     chk.floor("R2", 2)
     chk.floor("R3", 5)
+    chk.floor("R5", 2)
     chk.floor("R4", 10, default=2)  # the four lock wrappers (two methods each) exist only with the `tokio` feature
     chk.assumptions = ["user-written stores implement the documented lookup contract (match by id list and RP ID)",
                        "the first element of the store's result is the store's preferred credential"]
